@@ -3,9 +3,13 @@ package main
 // Rules added after the fourth round of independently seeded changes.
 
 import (
+	"encoding/json"
 	"fmt"
 	"go/token"
 	"go/types"
+	"os"
+	"path/filepath"
+	"regexp"
 	"strings"
 
 	"golang.org/x/tools/go/ssa"
@@ -354,6 +358,219 @@ func runC15RetAll(c *Ctx) {
 		}
 		if nret == 0 {
 			c.bad("(*Linter)."+name+"|returned diagnostics", fn.Pos(), "no successful return found")
+		}
+	}
+}
+
+// ---- C16.MATCHER ----
+
+func init() {
+	register(&Rule{ID: "C16.MATCHER", Min: 3, Doc: "the header line PrettyPrint writes (plain, coloured, and following another coloured header) is parsed back by the shipped problem matcher", Run: runC16Matcher})
+}
+
+// The header of a diagnostic is a fixed sequence of writes in the entry block of (*Error).PrettyPrint. It is replayed
+// symbolically: field loads become recognisable placeholders, a write through a *color.Color is bracketed by a colour
+// sequence and the reset sequence (fatih/color sets the colour, formats the whole text including a trailing newline, then
+// resets: trusted model of the library), a write through fmt is plain. The shipped matcher must parse every resulting line
+// shape back to the placeholders.
+func runC16Matcher(c *Ctx) {
+	p := c.P
+	fn := p.Method("Error", "PrettyPrint")
+	if fn == nil {
+		c.anchorMissing("(*Error).PrettyPrint")
+		return
+	}
+	raw, err := os.ReadFile(filepath.Join(p.Dir, ".github", "actionlint-matcher.json"))
+	if err != nil {
+		c.anchorMissing(".github/actionlint-matcher.json")
+		return
+	}
+	var mj struct {
+		ProblemMatcher []struct {
+			Pattern []struct {
+				Regexp                              string
+				File, Line, Column, Message, Code int
+			}
+		}
+	}
+	if err := json.Unmarshal(raw, &mj); err != nil || len(mj.ProblemMatcher) == 0 || len(mj.ProblemMatcher[0].Pattern) == 0 {
+		c.undecided(".github/actionlint-matcher.json|pattern", token.NoPos, "the matcher file cannot be read as a problem matcher")
+		return
+	}
+	pat := mj.ProblemMatcher[0].Pattern[0]
+	re, err := regexp.Compile(pat.Regexp)
+	if err != nil {
+		c.undecided(".github/actionlint-matcher.json|pattern", token.NoPos, "the pattern is not a regular expression Go can evaluate: "+err.Error())
+		return
+	}
+	place := map[string]string{"Error.Filepath": "dir/some file.yaml", "Error.Line": "12", "Error.Column": "345", "Error.Message": "some \"message\" [with] brackets: and colons", "Error.Kind": "some-kind"}
+	type write struct {
+		coloured bool
+		text     string
+	}
+	var writes []write
+	okModel := true
+	why := ""
+	argText := func(v ssa.Value) (string, bool) {
+		v = unwrap(v)
+		if mi, ok := v.(*ssa.MakeInterface); ok {
+			v = mi.X
+		}
+		if s, ok := constString(v); ok {
+			return s, true
+		}
+		if f, _ := fieldLoad(v); f != "" {
+			if t, ok := place[f]; ok {
+				return t, true
+			}
+		}
+		return "", false
+	}
+	for _, in := range fn.Blocks[0].Instrs {
+		call, ok := in.(*ssa.Call)
+		if !ok {
+			continue
+		}
+		name := calleeFullName(&call.Call)
+		var args []ssa.Value
+		coloured := false
+		format := false
+		nl := false
+		switch name {
+		case "(*github.com/fatih/color.Color).Fprint":
+			coloured = true
+			args = call.Call.Args[2:]
+		case "(*github.com/fatih/color.Color).Fprintf":
+			coloured, format = true, true
+			args = call.Call.Args[2:]
+		case "(*github.com/fatih/color.Color).Fprintln":
+			coloured, nl = true, true
+			args = call.Call.Args[2:]
+		case "fmt.Fprint":
+			args = call.Call.Args[1:]
+		case "fmt.Fprintf":
+			format = true
+			args = call.Call.Args[1:]
+		case "fmt.Fprintln":
+			nl = true
+			args = call.Call.Args[1:]
+		default:
+			continue
+		}
+		text := ""
+		if format {
+			fs, ok := constString(args[0])
+			if !ok {
+				okModel, why = false, "non-constant format in the header"
+				break
+			}
+			va, _ := variadicArgs(args[1])
+			i := 0
+			for j := 0; j < len(fs); j++ {
+				if fs[j] == '%' && j+1 < len(fs) {
+					j++
+					if fs[j] == '%' {
+						text += "%"
+						continue
+					}
+					if i < len(va) {
+						t, ok := argText(va[i])
+						if !ok {
+							okModel, why = false, "an argument of the header that is not a field of the diagnostic"
+						}
+						text += t
+						i++
+					}
+					continue
+				}
+				text += string(fs[j])
+			}
+		} else {
+			va, ok := variadicArgs(args[0])
+			if !ok {
+				okModel, why = false, "arguments of a header write not recognised"
+				break
+			}
+			for _, a := range va {
+				t, ok := argText(a)
+				if !ok {
+					okModel, why = false, "an argument of the header that is not a field of the diagnostic"
+				}
+				text += t
+			}
+		}
+		if nl {
+			text += "\n"
+		}
+		writes = append(writes, write{coloured, text})
+		if strings.Contains(text, "\n") {
+			break
+		}
+	}
+	if !okModel || len(writes) < 5 {
+		c.undecided("(*Error).PrettyPrint|header writes", fn.Pos(), "the header is not a fixed sequence of writes of the diagnostic's fields: "+why)
+		return
+	}
+	render := func(colour bool) string {
+		var sb strings.Builder
+		for _, w := range writes {
+			if colour && w.coloured {
+				sb.WriteString("\x1b[33m")
+			}
+			sb.WriteString(w.text)
+			if colour && w.coloured {
+				sb.WriteString("\x1b[0m")
+			}
+		}
+		return sb.String()
+	}
+	check := func(construct, line string) {
+		m := re.FindStringSubmatch(line)
+		grp := func(i int) string {
+			if m == nil || i <= 0 || i >= len(m) {
+				return ""
+			}
+			return m[i]
+		}
+		switch {
+		case m == nil:
+			c.bad(construct, fn.Pos(), fmt.Sprintf("the shipped problem matcher does not match the header line %q", line))
+		case grp(pat.File) != place["Error.Filepath"] || grp(pat.Line) != place["Error.Line"] || grp(pat.Column) != place["Error.Column"] || grp(pat.Message) != place["Error.Message"] || grp(pat.Code) != place["Error.Kind"]:
+			c.bad(construct, fn.Pos(), fmt.Sprintf("the problem matcher parses the header line %q back to file=%q line=%q col=%q message=%q kind=%q", line, grp(pat.File), grp(pat.Line), grp(pat.Column), grp(pat.Message), grp(pat.Code)))
+		default:
+			c.ok(construct, fn.Pos(), "file, line, column, message and kind are parsed back")
+		}
+	}
+	plain := render(false)
+	col := render(true)
+	firstLine := func(s string) (string, string) {
+		i := strings.IndexByte(s, '\n')
+		if i < 0 {
+			return s, ""
+		}
+		return s[:i], s[i+1:]
+	}
+	pl, _ := firstLine(plain)
+	cl, rest := firstLine(col)
+	check("(*Error).PrettyPrint|header without colours", pl)
+	check("(*Error).PrettyPrint|coloured header", cl)
+	// in -oneline mode the next header follows immediately: what the previous write left after its line break comes first
+	nl2, _ := firstLine(rest + col)
+	check("(*Error).PrettyPrint|coloured header after another header", nl2)
+	// every colour used has a single attribute (the matcher's escape pattern is ESC [ digits m)
+	if init := p.SPkg.Func("init"); init != nil {
+		okAttr := true
+		eachInstr(init, func(_ *ssa.BasicBlock, _ int, in ssa.Instruction) {
+			if call, ok := in.(*ssa.Call); ok && calleeFullName(&call.Call) == "github.com/fatih/color.New" {
+				if va, ok := variadicArgs(call.Call.Args[0]); !ok || len(va) != 1 {
+					okAttr = false
+				}
+			}
+		})
+		if okAttr {
+			c.ok("error.go|colours with one attribute", fn.Pos(), "every colour is one SGR attribute, i.e. one `ESC [ n m` sequence")
+		} else {
+			c.bad("error.go|colours with one attribute", fn.Pos(), "a colour combines several attributes (`ESC [ 1;31 m`), which the matcher's escape pattern does not cover")
 		}
 	}
 }
